@@ -123,3 +123,47 @@ sc('scan_flow_scalar_non_spaces', params={'double': 'bool'}, result='list', max_
 contract(SC + 'scan_flow_scalar_breaks', trusted=True, why='line folding inside quoted scalars: only its frame and "moves forward" are used by scan_flow_scalar_non_spaces',
          axioms=[pos_defs], requires=[inv_reader], result='list', ensures=[inv_reader, "self.index >= old(self.index)", "fresh(result)"],
          modifies=MODF, raises=RAISES, raises_any=True)
+
+# ---------------------------------------------------------------------------------------------------------------- C18 / C20
+# the simple-key bookkeeping that bounds token look-ahead: candidates expire after one line / 1024 characters, and more tokens are
+# fetched only while the queue is empty or a candidate still points at the token about to be handed out
+fields('yaml.scanner.SimpleKey', token_number='int', required='bool', index='int', line='int', column='int', mark='obj:yaml.error.Mark')
+define('inv_psk', ['s'], "heapobj(s.possible_simple_keys) and forall_v(k, haskey(s.possible_simple_keys, k) ==> exact(dget(s.possible_simple_keys, k), 'yaml.scanner.SimpleKey'))")
+define('KEY', ['s', 'k'], "as_(dget(s.possible_simple_keys, k), 'obj:yaml.scanner.SimpleKey')")
+
+contract(SC + 'next_possible_simple_key', props=['C18', 'C20'],
+    requires=["inv_psk(self)"], result='opt:int',
+    ensures=["len(self.possible_simple_keys) == 0 ==> result is None",
+             "len(self.possible_simple_keys) > 0 ==> result is not None",
+             # the minimum over all pending candidates
+             "result is not None ==> forall(j, 0, len(keys(self.possible_simple_keys)), result <= KEY(self, keys(self.possible_simple_keys)[j]).token_number)"],
+    labels={0: 'none-without-candidates', 1: 'some-with-candidates', 2: 'lower-bound-of-all-candidates'},
+    invariants={0: ["inv_psk(self)", "(min_token_number is None) == (loop_i == 0)", "min_token_number is None or typeis(min_token_number, 'int')",
+                    "min_token_number is not None ==> forall(j, 0, loop_i, min_token_number <= KEY(self, loop_seq[j]).token_number)"]},
+    modifies=[], raises=[])
+
+contract(SC + 'stale_possible_simple_keys', props=['C18', 'C20'], axioms=[pos_defs],
+    requires=[inv_reader, "inv_psk(self)"],
+    ensures=["inv_psk(self)",
+             # C18/C20: afterwards every candidate that was pending is on the current line and at most 1024 characters back
+             "forall(j, 0, old(len(keys(self.possible_simple_keys))), haskey(self.possible_simple_keys, old(keys(self.possible_simple_keys))[j]) ==> "
+             "(KEY(self, old(keys(self.possible_simple_keys))[j]).line == self.line and self.index - KEY(self, old(keys(self.possible_simple_keys))[j]).index <= 1024))",
+             "forall_v(k, haskey(self.possible_simple_keys, k) ==> (old(haskey(self.possible_simple_keys, k)) and dget(self.possible_simple_keys, k) is old(dget(self.possible_simple_keys, k))))",
+             "self.index == old(self.index) and self.line == old(self.line)"],
+    labels={0: 'inv_psk', 1: 'survivors-are-on-this-line-and-within-1024-characters', 2: 'only-removes-candidates', 3: 'position-unchanged'},
+    invariants={0: ["inv_psk(self)", inv_reader, "self.index == old(self.index) and self.line == old(self.line)",
+                    "forall_v(k, haskey(self.possible_simple_keys, k) ==> (old(haskey(self.possible_simple_keys, k)) and dget(self.possible_simple_keys, k) is old(dget(self.possible_simple_keys, k))))",
+                    "forall(j, 0, loop_i, haskey(self.possible_simple_keys, loop_seq[j]) ==> (KEY(self, loop_seq[j]).line == self.line and self.index - KEY(self, loop_seq[j]).index <= 1024))",
+                    "loop_seq == old(keys(self.possible_simple_keys))",
+                    "forall(j, loop_i, len(loop_seq), haskey(self.possible_simple_keys, loop_seq[j]))"]},
+    modifies=['self.possible_simple_keys[]'], raises=[SERR])
+
+contract(SC + 'need_more_tokens', props=['C18', 'C20'], axioms=[pos_defs],
+    requires=[inv_reader, "inv_psk(self)"], result='opt:bool',
+    ensures=["inv_psk(self)",
+             "self.done ==> not result",
+             "(not self.done and len(self.tokens) == 0) ==> result",
+             # C18: with a token ready, more input is looked at only while some simple-key candidate is still pending
+             "(result and len(self.tokens) > 0) ==> len(self.possible_simple_keys) > 0"],
+    labels={0: 'inv_psk', 1: 'never-after-stream-end', 2: 'always-when-the-queue-is-empty', 3: 'otherwise-only-while-a-candidate-is-pending'},
+    modifies=['self.possible_simple_keys[]'], raises=[SERR])
